@@ -6,6 +6,8 @@ import OH.Props.TablesC05
 #print axioms OH.Props.C05.C05_number_denotes
 #print axioms OH.Props.C05.C05_hour_minutes_denotes
 #print axioms OH.Props.C05.C05_day_offset_denotes
+#print axioms OH.Props.C05.C05_accepted_fields_in_range
+#print axioms OH.Props.C05.C05_empty_rejected
 #print axioms OH.Props.TablesC05.C05_separator_arms
 #print axioms OH.Props.TablesC05.C05_modifier_arms
 #print axioms OH.Props.TablesC05.C05_event_arms
